@@ -1,4 +1,20 @@
 # run plan + floors for C07 (loaded by checkcfg.py; helpers e1/e2 are in scope)
+# per (state, message kind, content variant) floors of the input-level part: every content variant of every
+# message kind must have been judged in every state (the code may branch on the content before the state)
+_VARIANTS = {
+    "open": ["as-configured", "hold-time-0", "hold-time-65535", "no-four-octet-as-capability", "more-capabilities"],
+    "open-wrong-as": ["wrong-as", "wrong-as-hold-time-0", "wrong-as-no-four-octet"],
+    "open-rejected-by-parser": ["identifier-0", "hold-time-1", "identifier-multicast", "hold-time-2", "identifier-broadcast"],
+    "update": ["end-of-rib-ipv4", "end-of-rib-ipv6-not-negotiated", "withdraw-ipv4-empty", "withdraw-vpnv4-not-negotiated",
+               "reach-ipv4-no-attributes", "reach-ipv6-not-negotiated"],
+    "notification-other": ["update-3-1", "header-1-2", "open-2-2", "hold-timer-4-0", "fsm-5-1", "cease-collision-6-7", "unknown-9-9"],
+    "route-refresh": ["ipv4-unicast-advertised", "ipv6-unicast-not-advertised", "ipv4-vpn-not-advertised", "unknown-afi-safi",
+                      "ipv4-unicast-subtype-borr", "ipv4-unicast-subtype-eorr", "afi-safi-0"],
+}
+_VARIANT_FLOORS = {"variant:%s:%s:%s" % (st, kind, v): fl
+                   for st, fl in (("open-sent", 20000), ("open-confirm", 800), ("established", 40))
+                   for kind, vs in _VARIANTS.items() for v in vs}
+
 CFG = dict(
     level="exploration",
     rule="case = one step of one input history judged against the reference FSM; non-trivial = the input hit a live "
@@ -33,7 +49,7 @@ CFG = dict(
                  "while its predecessor of the same role is still winding down after a collision is not judged",
                  "refusing to make progress (e.g. tearing down on an acceptable OPEN) is counted as unjudged, not a violation; "
                  "floors on reach:* make such a run inconclusive"],
-    floor=dict(evaluations=4000000, nontrivial=200000,
+    floor=dict(evaluations=10000000, nontrivial=200000,
                counters={"reach:open-confirm": 20000, "reach:established": 800,
                          "collision:both-open-confirm": 100, "collision:newcomer-vs-established": 20,
                          "collision:loser-active": 40, "collision:loser-passive": 40,
@@ -45,6 +61,7 @@ CFG = dict(
                          "accept-after:disconnect": 2000, "accept-after:admin-shutdown": 1000,
                          "accept-after:collision": 20, "accept-after:fsm-error": 3000,
                          "parser:bad-open-rejected": 100000, "random:histories": 4000,
+                         **_VARIANT_FLOORS,
                          "exhaustive:config-driver-combinations-completed": 100,
                          # real-task part: the windows must really be produced
                          "real:scenarios": 100, "real:collisions-judged": 100, "real:loser-read-cease-collision": 60,
